@@ -684,7 +684,16 @@ SLICE_FNS = ("index", "get", "get_unchecked", "split_at", "split_at_checked", "f
 def through_views(t):
     """strip std view calls; returns (inner term, names of slicing calls met on the way, unknown calls)"""
     sliced, unknown = [], []
-    while t[0] == "call":
+    while t[0] in ("call", "proj"):
+        if t[0] == "proj":
+            # `.0` / `.1` of `str::split_at(..)` (a pair of slices): still a slice of the same string
+            inner = t[1]
+            if t[2] in (".0", ".1") and isinstance(inner, tuple) and inner and inner[0] == "call" and \
+                    short(inner[1]).startswith("split_at"):
+                sliced.append("%s%s" % (short(inner[1]), t[2]))
+                t = inner[2][0]
+                continue
+            break
         nm = short(t[1])
         if t[1].startswith(("alloc::", "core::", "std::", "<alloc::", "<core::", "<std::", "<&")) and nm in VIEW_FNS:
             t = t[2][0]
